@@ -18,9 +18,9 @@ func init() {
 		Title: "Every compiled function is well-formed bytecode the VM can run without faulting",
 		Explanation: "Decided: R07-narrow — every narrowing conversion stored into a FunctionProto field is dominated by a raising range check of the same value against a constant that fits the field; R07-rk/R07-bx/R07-sbx — operand-width guards derived from opcode.go: every opRkAsk argument is checked against opMaxIndexRk, every Bx operand comes from ConstIndex (which raises above opMaxArgBx) or is range-checked, every value that becomes a final sBx jump distance is range-checked (two-sided where the sign is unknown) and label ids parked in the sBx field are bounded in NewLabel, the only writer of labelId; " +
 			"R07-extword — a word emitted through raw codeStore.Add is not a constant under its own path condition (SETLIST batch number); R07-skipgroup — for every opcode whose handler reads trailing code words, patchCode's scan advances past them (or the opcode is exempt with a reason), and the three definitions of the CLOSURE group length agree; R07-consts — register/constant ceilings fit the operand fields and are enforced with raising arms; R07-ret — an OP_RETURN emission lies on every path between compileChunk and the assignment of Proto.Code; R07-parallel — code and line table are modified in lock-step, sliced with the same bound and assigned together, string-constant table is built after the last possible ConstIndex call; R01-optable/R01-emit/R01-decode shared. " +
-			"NOT decided: that register operands stay below NumUsedRegisters (post-hoc high-water scan; a value argument), that every label is defined before patchCode, that jump targets are instruction boundaries.",
+			"R07-regcount — for every opcode whose VM handler stores into R(A+k), patchCode's case for that opcode accounts for at least A+k when it computes NumUsedRegisters (or derives the mark from the operands). NOT decided: that register operands stay below NumUsedRegisters (post-hoc high-water scan; a value argument), that every label is defined before patchCode, that jump targets are instruction boundaries.",
 		Trusted: []string{"codeStore.LastPC() is non-decreasing while one statement is compiled (a numeric for's body length is non-negative)"},
-		Rules:   []func(*Ctx){ruleNarrow, ruleRk, ruleBx, ruleSbx, ruleExtWord, ruleSkipGroup, ruleConsts, ruleRet, ruleParallel, ruleOptable, ruleEmit, ruleDecode},
+		Rules:   []func(*Ctx){ruleNarrow, ruleRk, ruleBx, ruleSbx, ruleExtWord, ruleSkipGroup, ruleRegCount, ruleConsts, ruleRet, ruleParallel, ruleOptable, ruleEmit, ruleDecode},
 	})
 }
 
